@@ -21,6 +21,7 @@ type GenCfg struct {
 	SliceCall bool // allow calls in slice bounds (two-call slices expose the bound-order finding)
 	NilSafe   bool
 	NoInRange bool // do not generate `x in <literal range>` (development aid)
+	MapRep    bool // the environment is a map[string]interface{}: lower-case members exist, Any has its value's static type
 }
 
 type gen struct {
@@ -61,6 +62,9 @@ func (g *gen) intLeaf() *N {
 	}
 	if g.r.Chance(1, 2) {
 		return g.lit()
+	}
+	if g.cfg.MapRep && g.r.Chance(1, 8) {
+		return nID("index")
 	}
 	return nID(g.r.Pick(intMembers))
 }
@@ -438,7 +442,16 @@ func (g *gen) Bool() *N {
 			if !g.cfg.Strings {
 				continue
 			}
-			switch g.r.Intn(3) {
+			switch g.r.Intn(4) {
+			case 3:
+				// the pattern is a constant concatenation (folded by the optimiser),
+				// possibly ill-formed: then evaluation fails at run time
+				a := g.r.Pick([]string{"^", "k", "(", "[a-", "a", "x."})
+				b := g.r.Pick([]string{"b+", "z]", "abc", ")", "$", "["})
+				if !g.cfg.Failing {
+					a, b = "^", g.r.Pick([]string{"a", "k.", "b+"})
+				}
+				return nBin("matches", g.Str(), nBin("+", nStr(a), nStr(b)))
 			case 0:
 				return nBin("matches", g.Str(), nStr(g.r.Pick(rePool)))
 			case 1:
@@ -495,7 +508,13 @@ func (g *gen) Bool() *N {
 			if a == nil {
 				continue
 			}
-			switch g.r.Intn(4) {
+			switch g.r.Intn(5) {
+			case 4:
+				// a dynamic value as the left operand of a connective: fails unless it holds a bool
+				if g.cfg.Failing && (a.K == "call" || !g.cfg.MapRep) {
+					return nBin(g.r.Pick([]string{"and", "or", "&&", "||"}), a, g.Bool())
+				}
+				return nBin("==", a, g.Int())
 			case 0:
 				return nBin(g.r.Pick([]string{"<", ">="}), a, g.Int())
 			case 1:
@@ -520,6 +539,9 @@ func (g *gen) Bool() *N {
 }
 
 func (g *gen) boolLeaf() *N {
+	if g.cfg.MapRep && g.r.Chance(1, 6) {
+		return nID("info") // an identifier that begins with "in"
+	}
 	switch g.r.Intn(4) {
 	case 0:
 		return nBool(true)
